@@ -68,12 +68,96 @@ def has_extension(P):
     return len(extensions_of(P)) > 0
 
 
-@contract("sempler.utils.pdag_to_dag")
+@spec
+def extension_fo(G, P):
+    """first-order definition of "G is a consistent extension of the PDAG P": every directed edge kept, every undirected edge
+    oriented one way, nothing else added, no directed cycle, exactly the v-structures of P"""
+    return (len(G.shape) == 2 and G.shape[0] == len(P) and G.shape[1] == len(P)
+            and all(implies(dedge(P, a, b), G[a, b] != 0 and G[b, a] == 0) for a in range(len(P)) for b in range(len(P)))
+            and all(implies(not adjacent(P, a, b), G[a, b] == 0) for a in range(len(P)) for b in range(len(P)))
+            and all(implies(uedge(P, a, b), (G[a, b] != 0) != (G[b, a] != 0)) for a in range(len(P)) for b in range(len(P)))
+            and acyclic(G)
+            and all(iff(vs(G, a, c, b), vs(P, a, c, b)) for a in range(len(P)) for c in range(len(P)) for b in range(len(P))))
+
+
+# ---- pdag_to_dag (Dor & Tarsi).  PROVED for every size: whenever it returns, the result is a consistent extension of the input
+# ---- (soundness: acyclic by the removal order, skeleton / directed edges kept, no new v-structure by the neighbour condition).
+# ---- ASSUMED (bounded tier only): it raises only when no extension exists (completeness, Dor & Tarsi 1992).
+# ---- Ghost state: ghost_rk[x] = size of the working graph when node x was removed (0 while x is still in it); the removal order
+# ---- is the ranking that witnesses acyclicity.  The ghost statements are woven into the generator's copy of the AST only.
+
+@contract("sempler.utils.pdag_to_dag", cases={'debug': [False]})
 def pdag_to_dag(P: Arr2) -> Arr2:
     requires(pdag_ok(P))
-    raises(ValueError, when=not has_extension(P))
+    ghost_code(at='entry', code='ghost_rk = np.zeros(len(P))')
+    ghost_code(before='all_but_i = list(set(range(len(P))) - {i})', code='ghost_rk[real_i] = len(P)')
+    raises(ValueError, when=not has_extension(P), assumed_on_raise='completeness of the Dor-Tarsi search (L-DT), decided by vkb.c09 on all PDAGs up to the bound')
+    hint(acyclic_if_ranked(result, lambda x: ghost_rk[x]), at='return')
+    ensures(extension_fo(result, P))
+    # DEF: the opaque predicates used by the callers are this first-order definition
+    hint(implies(extension_fo(result, old(P)), is_extension_of(result, old(P)) and has_extension(old(P))), at='return')
     ensures(is_extension_of(result, P), square(result), len(result) == len(P), acyclic(result))
     fresh(result)
+
+
+@spec
+def pd_frame(P, indexes, G, rk, P0):
+    """working graph = sub-graph of the input on the remaining nodes `indexes` (increasing); rk == 0 exactly on them"""
+    return (len(P.shape) == 2 and P.shape[0] == len(indexes) and P.shape[1] == len(indexes) and len(indexes) <= len(P0)
+            and all(0 <= indexes[a] and indexes[a] < len(P0) for a in range(len(indexes)))
+            and all(implies(a < b, indexes[a] < indexes[b]) for a in range(len(indexes)) for b in range(len(indexes)))
+            and all(P[a, b] == P0[indexes[a], indexes[b]] for a in range(len(indexes)) for b in range(len(indexes)))
+            and len(rk.shape) == 1 and rk.shape[0] == len(P0)
+            and len(G.shape) == 2 and G.shape[0] == len(P0) and G.shape[1] == len(P0))
+
+
+@invariant("sempler.utils.pdag_to_dag", loop=1)
+def _pd_outer(P, indexes, G, ghost_rk):
+    declare(indexes=ListOf(Int))
+    holds(pd_frame(P, indexes, G, ghost_rk, old(P)),
+          all(iff(ghost_rk[x] == 0, x in indexes) for x in range(len(old(P)))),
+          all(ghost_rk[x] == 0 or (ghost_rk[x] > len(indexes) and ghost_rk[x] <= len(old(P))) for x in range(len(old(P)))),
+          all(implies(ghost_rk[x] == ghost_rk[y] and ghost_rk[x] > 0, x == y) for x in range(len(old(P))) for y in range(len(old(P)))),
+          all(implies(dedge(old(P), u, v), G[u, v] != 0 and G[v, u] == 0) for u in range(len(old(P))) for v in range(len(old(P)))),
+          all(implies(not adjacent(old(P), u, v), G[u, v] == 0) for u in range(len(old(P))) for v in range(len(old(P)))),
+          all(implies(uedge(old(P), u, v), iff(G[u, v] != 0, ghost_rk[u] < ghost_rk[v])) for u in range(len(old(P))) for v in range(len(old(P)))),
+          all(implies(dedge(old(P), u, v), (ghost_rk[u] == 0 and ghost_rk[v] == 0) or ghost_rk[u] < ghost_rk[v]) for u in range(len(old(P))) for v in range(len(old(P)))),
+          all(implies(uedge(old(P), a, c) and G[a, c] != 0 and G[b, c] != 0 and a != b, adjacent(old(P), a, b))
+              for a in range(len(old(P))) for b in range(len(old(P))) for c in range(len(old(P)))))
+
+
+@invariant("sempler.utils.pdag_to_dag", loop=2)
+def _pd_search(P, indexes, G, ghost_rk, i, found):
+    declare(indexes=ListOf(Int))
+    holds(i >= 0,
+          pd_frame(P, indexes, G, ghost_rk, old(P)),
+          all(iff(ghost_rk[x] == 0, x in indexes) for x in range(len(old(P)))),
+          all(ghost_rk[x] == 0 or (ghost_rk[x] > len(indexes) and ghost_rk[x] <= len(old(P))) for x in range(len(old(P)))),
+          all(implies(ghost_rk[x] == ghost_rk[y] and ghost_rk[x] > 0, x == y) for x in range(len(old(P))) for y in range(len(old(P)))),
+          all(implies(dedge(old(P), u, v), G[u, v] != 0 and G[v, u] == 0) for u in range(len(old(P))) for v in range(len(old(P)))),
+          all(implies(not adjacent(old(P), u, v), G[u, v] == 0) for u in range(len(old(P))) for v in range(len(old(P)))),
+          all(implies(uedge(old(P), u, v), iff(G[u, v] != 0, ghost_rk[u] < ghost_rk[v])) for u in range(len(old(P))) for v in range(len(old(P)))),
+          all(implies(dedge(old(P), u, v), (ghost_rk[u] == 0 and ghost_rk[v] == 0) or ghost_rk[u] < ghost_rk[v]) for u in range(len(old(P))) for v in range(len(old(P)))),
+          all(implies(uedge(old(P), a, c) and G[a, c] != 0 and G[b, c] != 0 and a != b, adjacent(old(P), a, b))
+              for a in range(len(old(P))) for b in range(len(old(P))) for c in range(len(old(P)))))
+
+
+@invariant("sempler.utils.pdag_to_dag", loop=3)
+def _pd_orient(P, indexes, G, ghost_rk, real_i, real_neighbors, i):
+    declare(indexes=ListOf(Int), real_neighbors=ListOf(Int))
+    holds(pd_frame(P, indexes, G, ghost_rk, old(P)),
+          all(iff(ghost_rk[x] == 0, x in indexes) for x in range(len(old(P)))),
+          all(ghost_rk[x] == 0 or (ghost_rk[x] > len(indexes) and ghost_rk[x] <= len(old(P))) for x in range(len(old(P)))),
+          all(implies(ghost_rk[x] == ghost_rk[y] and ghost_rk[x] > 0, x == y) for x in range(len(old(P))) for y in range(len(old(P)))),
+          all(implies(dedge(old(P), u, v), G[u, v] != 0 and G[v, u] == 0) for u in range(len(old(P))) for v in range(len(old(P)))),
+          all(implies(not adjacent(old(P), u, v), G[u, v] == 0) for u in range(len(old(P))) for v in range(len(old(P)))),
+          # the undirected edges at real_i towards the neighbours already visited are oriented into real_i
+          all(implies(uedge(old(P), u, v),
+                      iff(G[u, v] != 0, ghost_rk[u] < ghost_rk[v] or (v == real_i and ghost_rk[u] == 0 and any(_iter3[m] == u for m in range(_k3)))))
+              for u in range(len(old(P))) for v in range(len(old(P)))),
+          all(implies(dedge(old(P), u, v), (ghost_rk[u] == 0 and ghost_rk[v] == 0) or ghost_rk[u] < ghost_rk[v]) for u in range(len(old(P))) for v in range(len(old(P)))),
+          all(implies(uedge(old(P), a, c) and G[a, c] != 0 and G[b, c] != 0 and a != b, adjacent(old(P), a, b))
+              for a in range(len(old(P))) for b in range(len(old(P))) for c in range(len(old(P)))))
 
 
 @contract("sempler.utils.has_consistent_extension")
@@ -141,11 +225,59 @@ def is_icpdag_of(C, A, I):
     return same_pattern(C, union_graph(imec_of(A, I)))
 
 
-@contract("sempler.utils.dag_to_cpdag")
-def dag_to_cpdag(G: Arr2) -> Arr2:
-    requires(square(G), acyclic(G))
-    ensures(is_cpdag_of(result, G), pdag_ok(result), binary(result), len(result) == len(G))
+# ---- dag_to_cpdag = order_edges ; label_edges ; assembly.  The two labelling passes (Chickering 1995) are ASSUMED to label every
+# ---- edge of G with 1 when it is compelled and -1 when it is reversible (decided by the bounded harness only); the assembly of
+# ---- the CPDAG from the labels is PROVED: a compelled edge stays directed, a reversible one is written in both directions.
+
+@spec
+def cpdag_fo(C, G):
+    """C is the 0/1 matrix with a -> b for every edge of G, plus b -> a when that edge is reversible"""
+    return (len(C.shape) == 2 and C.shape[0] == len(G) and C.shape[1] == len(G)
+            and all(C[a, b] == (1 if (G[a, b] != 0 or (G[b, a] != 0 and not compelled(G, b, a))) else 0)
+                    for a in range(len(G)) for b in range(len(G))))
+
+
+@contract("sempler.utils.order_edges")
+def order_edges(G: Arr2) -> Arr2i:
+    requires(square(G))
+    raises(ValueError, when=not acyclic(G))
+    ensures(result.shape[0] == len(G) and result.shape[1] == len(G),
+            all(iff(result[a, b] != 0, G[a, b] != 0) for a in range(len(G)) for b in range(len(G))),
+            valid_edge_order(result), acyclic(result))
     fresh(result)
+
+
+@contract("sempler.utils.label_edges")
+def label_edges(ordered: Arr2o) -> Arr2i:
+    # ASSUMED as a whole (bounded tier only; the body - argmax over a masked float copy, fancy writes, break - is not interpreted):
+    # Chickering's edge labelling marks exactly the compelled edges with 1 and the reversible ones with -1
+    requires(square(ordered), acyclic(ordered), valid_edge_order(ordered))
+    ensures(result.shape[0] == len(ordered) and result.shape[1] == len(ordered),
+            all(result[a, b] == (0 if ordered[a, b] == 0 else (1 if compelled(ordered, a, b) else -1))
+                for a in range(len(ordered)) for b in range(len(ordered))))
+    fresh(result)
+
+
+@contract("sempler.utils.dag_to_cpdag")
+def dag_to_cpdag(G: Arr2) -> Arr2i:
+    requires(square(G), acyclic(G))
+    # DEF: whether an edge is compelled depends on the non-zero pattern only
+    hint(implies(all(iff(ordered[a, b] != 0, G[a, b] != 0) for a in range(len(G)) for b in range(len(G))),
+                 all(compelled(ordered, a, b) == compelled(G, a, b) for a in range(len(G)) for b in range(len(G)))), at='before:label_edges')
+    ensures(cpdag_fo(result, G), binary(result), len(result) == len(G))
+    # DEF: the essential graph of G's class is exactly that matrix; its directed part is a sub-graph of G, hence acyclic
+    hint(implies(cpdag_fo(result, G), is_cpdag_of(result, G) and pdag_ok(result)), at='return')
+    ensures(is_cpdag_of(result, G), pdag_ok(result))
+    fresh(result)
+
+
+@invariant("sempler.utils.dag_to_cpdag", loop=1)
+def _d2c(cpdag, labelled):
+    holds(cpdag.shape[0] == len(labelled) and cpdag.shape[1] == len(labelled),
+          all(0 <= _iter1[m][0] and _iter1[m][0] < len(labelled) and 0 <= _iter1[m][1] and _iter1[m][1] < len(labelled) for m in range(len(_iter1))),
+          all(cpdag[a, b] == (1 if (labelled[a, b] == 1
+                                    or any((_iter1[m][0] == a and _iter1[m][1] == b) or (_iter1[m][0] == b and _iter1[m][1] == a) for m in range(_k1))) else 0)
+              for a in range(len(labelled)) for b in range(len(labelled))))
 
 
 @contract("sempler.utils.all_dags")
